@@ -46,6 +46,7 @@ def run(ctx, R, tier):
     R.rule("C07-R2", "every literal class tag in dict_to_class names an existing Pyro class and its branch builds that class; exception tags are resolved in their own namespace", floor=7)
     R.rule("C07-R3", "server error path: traceback stored before serialisation, FLAGS_EXCEPTION set before the reply is built, reply condition as documented", floor=4)
     R.rule("C07-R4", "client raises the decoded object exactly under FLAGS_EXCEPTION", floor=2)
+    R.rule("C07-R6", "exceptions raised by user code (methods, property accessors, stream iterators) are never swallowed or replaced on the dispatch path", floor=5)
     R.rule("C07-R5", "batch: the failing call's exception is wrapped in core._ExceptionWrapper with its traceback; the client tests the same class and re-raises the payload", floor=4)
 
     c2d = ctx.fn(SER + ".class_to_dict")
@@ -231,6 +232,43 @@ def run(ctx, R, tier):
         any(isinstance(n, ast.Attribute) and n.attr == "_pyroTraceback" for n in ast.walk(gpt.node))
     R.check(reads_tb and bool(tb), "C07-R3", "traceback|attribute-name-agrees", "the attribute the server stores the remote traceback in is the one errors.get_pyro_traceback reads", gpt.loc(),
             "server and client disagree on the name of the remote-traceback attribute")
+
+    # ---------------------------------------------------------------- R6
+    n6 = 0
+    for fq in ("Pyro5.server.Daemon.handleRequest", "Pyro5.server._get_exposed_property_value", "Pyro5.server._set_exposed_property_value",
+               "Pyro5.server._get_attribute", "Pyro5.server.DaemonObject.get_next_stream_item"):
+        g = ctx.fn(fq)
+        sites = []
+        for c, tgs in ctx.cg.calls_of(g):
+            user = (isinstance(c.func, ast.Name) and ctx.cg.is_local(g, c.func.id) and not any(t.kind == "fn" for t in tgs) and
+                    not any(t.kind == "ext" and not t.name.endswith("()()") for t in tgs)) or \
+                   (isinstance(c.func, ast.Attribute) and c.func.attr in ("fget", "fset")) or \
+                   (isinstance(c.func, ast.Name) and c.func.id == "next" and fq.endswith("get_next_stream_item"))
+            if user:
+                sites.append(c)
+        for c in sites:
+            n6 += 1
+            bad = None
+            for t, part in enclosing_trys(c, g.node):
+                if part != "body":
+                    continue
+                for hnd in t.handlers:
+                    classes = [es.class_of_expr(x, g) for x in (hnd.type.elts if isinstance(hnd.type, ast.Tuple) else [hnd.type])] if hnd.type is not None else ["builtins.BaseException"]
+                    if not any(cl and (es.is_sub(cl, "builtins.Exception") or es.is_sub("builtins.Exception", cl)) for cl in classes):
+                        continue
+                    last = hnd.body[-1] if hnd.body else None
+                    reraises = isinstance(last, ast.Raise) and (last.exc is None or (hnd.name and unparse(last.exc) == hnd.name))
+                    wraps = any(isinstance(x, ast.Call) and any(ty == "cls:Pyro5.core._ExceptionWrapper" for ty in ctx.cg.expr_types(x, g)) and x.args and
+                                hnd.name and unparse(x.args[0]) == hnd.name for st in hnd.body for x in walk_no_nested(st))
+                    replies = any(isinstance(x, ast.Call) and ctx.is_call_to(x, g, "Pyro5.server.Daemon._sendExceptionResponse") and hnd.name and
+                                  any(unparse(a) == hnd.name for a in x.args) for st in hnd.body for x in walk_no_nested(st))
+                    if not (reraises or wraps or replies):
+                        bad = hnd
+            R.check(bad is None, "C07-R6", "%s|user-exception-propagates:%s#%d" % (g.name, unparse(c.func, 30), sites.index(c)), "an exception raised by user code leaves this call site unchanged (re-raised or wrapped as is)",
+                    g.loc(c), "the handler at %s swallows or replaces exceptions of the user's code called by `%s`: the caller receives a different exception (or none)" % (
+                        g.loc(bad) if bad is not None else "", unparse(c, 50)))
+    if n6 < 5:
+        raise AnalysisError("fewer user-code call sites on the dispatch path than expected (%d)" % n6)
 
     # ---------------------------------------------------------------- R4
     inv = ctx.fn("Pyro5.client.Proxy._pyroInvoke")
